@@ -487,6 +487,14 @@ func (ft *funcTr) failStmt(s ast.Stmt, m mode, ind string) string {
 	if sel, ok := ast.Unparen(c.Fun).(*ast.SelectorExpr); ok {
 		ft.checkOnRecv(sel)
 	}
+	if t.cfg.FailMsgs { // segfail.go
+		switch m.kind {
+		case mTail:
+			return ind + "Ok " + ft.failedTerm(c) + "\n"
+		case mOut:
+			return ind + "Ok (Return " + ft.failedTerm(c) + ")\n"
+		}
+	}
 	switch m.kind {
 	case mTail:
 		return ind + "Ok Failed\n"
@@ -501,6 +509,9 @@ func (ft *funcTr) failStmt(s ast.Stmt, m mode, ind string) string {
 
 // checkOnRecv: the method call sel.X.m(...) is on the receiver variable of this function.
 func (ft *funcTr) checkOnRecv(sel *ast.SelectorExpr) {
+	if ft.segRecvOK(sel) { // segfail.go
+		return
+	}
 	id, ok := ast.Unparen(sel.X).(*ast.Ident)
 	if !ok || ft.recv == nil || ft.t.info.Uses[id] != types.Object(ft.recv) {
 		ft.t.fail(sel, "call of method %s on something other than the receiver of the translated method", sel.Sel.Name)
@@ -551,6 +562,9 @@ func (ft *funcTr) wrapType(R string) string {
 			R = "(" + T + " * " + R + ")%type"
 		}
 	}
+	if ft.fails && ft.t.cfg.FailMsgs { // segfail.go
+		return "(exitm " + R + ")"
+	}
 	if ft.fails {
 		R = "(exit " + R + ")"
 	}
@@ -574,6 +588,9 @@ func (ft *funcTr) wrapRet(val string) string {
 		} else {
 			val = "(" + ft.names[ft.recv] + ", " + val + ")"
 		}
+	}
+	if ft.fails && ft.t.cfg.FailMsgs { // segfail.go
+		return "(DoneM " + val + ")"
 	}
 	if ft.fails {
 		val = "(Done " + val + ")"
